@@ -7,9 +7,8 @@
 // exactly as app/reloader.go does (receiver.BuildReceiverIntegrations), send notifications through every integration
 // (against a succeeding sink, a failing sink, and a resolved notification), then print it again:
 //   (a) no canary in Config.String() (nor in its JSON / YAML marshalling, unless it was there before the use),
-//   (b) the text is a fixed point of notification traffic: building the integrations and the FIRST notification may
-//       complete defaults once (email.New fills default headers, pagerduty.Notify a default severity - existing,
-//       secret-free behaviour), every later round (failing sink, resolved, success again) leaves it unchanged.
+//   (b) statistics only (not judged): whether building / the first notification / later rounds changed the text at all
+//       (the unchanged code completes defaults in place: email.New default headers, pagerduty.Notify default severity).
 // Judged directly with the canaries; no model involved.
 package c17
 
@@ -236,29 +235,21 @@ func firstDiff(a, b string) string {
 
 func (x *runner) judgeSecretFree(stage string, before, after texts, cs Case) {
 	if strings.Contains(after.str, marker) {
-		x.violate("secret-printed-after-use", "Config.String() of the live configuration shows a secret after "+stage+": ..."+excerpt(after.str)+"...", cs)
+		x.violate("secret-in-printed-config-after-use", "Config.String() of the live configuration shows a secret after "+stage+": ..."+excerpt(after.str)+"...", cs)
 	}
 	for _, p := range []struct{ name, b, a string }{{"JSON", before.js, after.js}, {"YAML", before.yml, after.yml}} {
 		if strings.Contains(p.a, marker) && !strings.Contains(p.b, marker) {
-			x.violate("secret-printed-after-use", p.name+" marshalling of the live configuration shows a secret after "+stage+": ..."+excerpt(p.a)+"...", cs)
+			x.violate("secret-in-printed-config-after-use", p.name+" marshalling of the live configuration shows a secret after "+stage+": ..."+excerpt(p.a)+"...", cs)
 		}
 	}
 }
 
+// judgeUse: the oracle is secret-freeness. Whether the text changed at all under later traffic is only counted
+// (the unchanged code completes defaults in place, e.g. email headers, pagerduty severity; C17 does not forbid that).
 func (x *runner) judgeUse(stage string, before, after texts, cs Case) {
-	if strings.Contains(after.str, marker) {
-		x.violate("secret-printed-after-use", "Config.String() of the live configuration shows a secret after "+stage+": ..."+excerpt(after.str)+"...", cs)
-	}
+	x.judgeSecretFree(stage, before, after, cs)
 	if after.str != before.str {
-		x.violate("config-text-changed-by-use", "Config.String() of the live configuration changed by "+stage+" ("+firstDiff(before.str, after.str)+")", cs)
-	}
-	for _, p := range []struct{ name, b, a string }{{"JSON", before.js, after.js}, {"YAML", before.yml, after.yml}} {
-		if p.a != p.b {
-			x.violate("config-text-changed-by-use", p.name+" marshalling of the live configuration changed by "+stage, cs)
-		}
-		if strings.Contains(p.a, marker) && !strings.Contains(p.b, marker) {
-			x.violate("secret-printed-after-use", p.name+" marshalling of the live configuration shows a secret after "+stage+": ..."+excerpt(p.a)+"...", cs)
-		}
+		x.run.Count("use", "text-changed-by-later-notifications")
 	}
 }
 
